@@ -72,7 +72,10 @@ def run_scn(args):
     jwks = [slot_jwk(side, sl, s["kids"], sl == min(s["set"])) for sl in s["set"]]
     kids = [kid_of(j) for j in jwks]
     sel = s["kid"]
-    hk = None if sel == "absent" else ("no-such-kid" if sel == "unknown" else kids[int(sel) - 1])
+    # "unknown": a string that is no key's kid - an arbitrary one, or (when the kids are the application's own) the RFC 7638
+    # thumbprint of a key of the set, under which that key is NOT registered
+    unknown = R.thumbprint(jwks[0]) if (s["kids"] in ("explicit", "empty") and (len(s["set"]) + len(s["alg"]) + len(s["ser"])) % 2 == 0) else "no-such-kid"
+    hk = None if sel == "absent" else (unknown if sel == "unknown" else kids[int(sel) - 1])
     alg, ser = s["alg"], s["ser"]
     payload = b"key-set payload \x00\xff"
     try:
